@@ -40,6 +40,8 @@ def chunks(tier, seed):
     n = 9 if tier == 'quick' else 12 * DEEP
     out = []
     for key in _selected():
+        heavy = '_image' in key       # the relational product needs an interpretation of IMG/FIMG: ~20 s per input
+        n = (3 if heavy else 9) if tier == 'quick' else (2 if heavy else 12) * DEEP
         step = 1 if tier == 'quick' else 4
         for k in range(0, n, step):
             out.append(('case_contract', [dict(key=key, seed=seed * 100003 + k + i) for i in range(min(step, n - k))]))
